@@ -124,8 +124,8 @@ ENTRIES = [
     N('logging-in-length-loop', "            bytes_left -= len(data)\n\n            if bytes_left < 0:", "            bytes_left -= len(data)\n            _logger.debug('read %d', len(data))\n\n            if bytes_left < 0:"),
     N('short-read-guard-nested', "        if bytes_left > 0:\n            raise NetworkError('Connection closed.')\n\n        content_data = self._flush_decompressor()\n\n        if file and content_data:",
       "        if not bytes_left <= 0:\n            _logger.debug('short body')\n            raise NetworkError('Connection closed.')\n\n        content_data = self._flush_decompressor()\n\n        if file and content_data:"),
-    N('length-read-bounded-by-counter', "            data = yield from self._connection.read(self._read_size)\n\n            if not data:\n                break\n\n            bytes_left",
-      "            data = yield from self._connection.read(min(bytes_left, self._read_size))\n\n            if not data:\n                break\n\n            bytes_left"),
+    B('length-read-bounded-by-counter', "            data = yield from self._connection.read(self._read_size)\n\n            if not data:\n                break\n\n            bytes_left",
+      "            data = yield from self._connection.read(min(bytes_left, self._read_size))\n\n            if not data:\n                break\n\n            bytes_left", 'C08-D3'),
     N('short-read-protocol-error', "        if bytes_left > 0:\n            raise NetworkError('Connection closed.')", "        if bytes_left > 0:\n            raise ProtocolError('Connection closed.')"),
     N('keep-alive-test-order', "        if not self._keep_alive or should_close:", "        if should_close or not self._keep_alive:"),
 ]
